@@ -97,6 +97,7 @@ func (fr *Frame) noteSend(v Val, pos token.Pos, st *State) {
 	for _, cl := range vc.ct.CallSites["chansend"] {
 		g := fr.evalCallSite(cl, Term{}, []Val{v}, st)
 		vc.callCount++
+		vc.fired(cl)
 		vc.Oblige("callsite", fmt.Sprintf("chansend#%d.%s", vc.callCount, cl.Label), pos, st, g, cl.Src)
 	}
 }
